@@ -213,11 +213,15 @@ def b_int(ex, state, args, kwargs, sv):
             ok = z3.InRe(a.t, digits)
             okneg = z3.InRe(a.t, z3.Concat(z3.Re("-"), digits))
             strict = z3.Or(ok, okneg)
-            maybe = z3.Bool(fresh_name("int_lenient"))   # inputs like " 12", "+1", "1_0" may or may not parse
-            ex.raise_if(state, z3.And(z3.Not(strict), z3.Not(maybe)), "ValueError")
-            r = z3.Int(fresh_name("int_of_str"))
+            # int() is a function of the text: py_int_ok(s) says whether it parses (inputs like " 12", "+1", "1_0"
+            # may or may not -- left open), py_int(s) is its value (pinned for plain digit strings)
+            from . import natives
+            okf, r = natives.py_int_ok_f(a.t), natives.py_int_f(a.t)
+            state.assume(z3.Implies(strict, okf))
+            ex.raise_if(state, z3.Not(okf), "ValueError")
             state.assume(z3.Implies(ok, r == z3.StrToInt(a.t)))
             state.assume(z3.Implies(ok, r >= 0))
+            state.assume(z3.Implies(okneg, r <= 0))
             return VInt(r)
         if isinstance(a, VDyn):
             return pyval.to_int(ex, state, a)
@@ -870,6 +874,7 @@ def m_deque(ex, state, args, kwargs):
 CLASS_MODELS["deque"] = m_deque
 CLASS_MODELS["collections.deque"] = m_deque
 EXTERNAL_CLASSES.update({"collections.deque", "array.array"})
+EXTERNAL_CONSTS = {"zlib.MAX_WBITS": 15, "zlib.DEFLATED": 8, "zlib.Z_DEFAULT_COMPRESSION": -1, "zlib.Z_SYNC_FLUSH": 2}
 
 
 # ------------------------------------------------------------------------------------------ array('B')
@@ -987,7 +992,8 @@ def dict_has(ex, state, ref, k):
         except Unsupported:
             res.append(z3.And(g, disj([ex.eq(state, ka, ex.const(c)) for c in o.d if not isinstance(c, tuple)])))
             continue
-        res.append(z3.And(g, z3.BoolVal(ck in o.d)))
+        pres = (getattr(o, "opt", None) or {}).get(ck)
+        res.append(z3.And(g, pres if (ck in o.d and pres is not None) else z3.BoolVal(ck in o.d)))
     return simp(disj(res))
 
 
@@ -1015,6 +1021,9 @@ def dict_getitem(ex, state, ref, k):
         return mk_union(alts)
     if ck not in o.d:
         ex.raise_if(state, z3.BoolVal(True), "KeyError")
+    g = (getattr(o, "opt", None) or {}).get(ck)
+    if g is not None:
+        ex.raise_if(state, z3.Not(g), "KeyError")       # optional key of an odict
     return o.d[ck]
 
 
